@@ -11,6 +11,9 @@ type MediaType struct {
 }
 
 func NewMediaType(s *openapi3.MediaType, components ComponentsSchemas, opts SchemaOptions) (*MediaType, error) {
+	if s == nil {
+		return nil, fmt.Errorf("media type is empty")
+	}
 	mediaSchema, err := NewSchemaRef(s.Schema, components, opts)
 	if err != nil {
 		return nil, fmt.Errorf("new schema ref: %w", err)
